@@ -122,6 +122,9 @@ def run_case(case: dict) -> dict:
                 else:
                     var.desc = op["name"]
                 e["after"] = lb(var.read() if use_fn() else var.raw)
+            elif o == "redesc":
+                e["val"], e["name"] = op["val"], op["name"]
+                var.od.add_value_description(op["val"], op["name"])
             elif o == "desc_get":
                 e["name"] = var.read(fmt="desc") if use_fn() else var.desc
             elif o in ("bits_set", "bits_get"):
